@@ -83,14 +83,17 @@ SelOps(s) ==
 (* Denotation                                                              *)
 (***************************************************************************)
 \* nested-loop join: lhs-major order; rows agree on `common`, the predicate
-\* holds on the merged row
+\* holds on the merged row.  Where both operands carry a column that is not a
+\* common column the rhs value wins, as in the SQL engine's
+\* {**lhs.columns_available, **rhs.columns_available}; well-formed trees have
+\* no such column (see the collision guard in SqlAppendBinary).
 RECURSIVE JoinRows(_, _, _, _)
 JoinRows(l, r, common, p) ==
     IF l = <<>> THEN <<>>
     ELSE LET lr == Head(l)
              match == SelectSeq(r, LAMBDA rr : (\A c \in common : rr[c] = lr[c])
-                                              /\ EvalP(p, MergeRows(lr, rr)))
-         IN [i \in DOMAIN match |-> MergeRows(lr, match[i])] \o JoinRows(Tail(l), r, common, p)
+                                              /\ EvalP(p, MergeRows(rr, lr)))
+         IN [i \in DOMAIN match |-> MergeRows(match[i], lr)] \o JoinRows(Tail(l), r, common, p)
 
 RECURSIVE Den(_, _)
 Den(t, env) ==
@@ -113,8 +116,8 @@ DenT(t, env) ==
 (***************************************************************************)
 (* Structural well-formedness (property C14)                               *)
 (***************************************************************************)
-KeyCols == {"a", "b", "c", "d", "e"}        \* every column except the non-key ones
-IsKey(c) == c \in KeyCols
+NonKeyCols == {"v", "w"}                     \* every other column tag is a key column
+IsKey(c) == c \notin NonKeyCols
 
 RECURSIVE WellFormed(_)
 WellFormed(t) ==
